@@ -104,10 +104,15 @@ def synth(engine, ty, name):
     return [sym.Sym(name, t)]
 
 
-def signature_args(engine, fn, max_combos=6):
+def signature_args(engine, fn, max_combos=6, vary=None):
+    """Argument tuples for a call; `vary`: only arguments whose type ends with this name take all their alternatives, the others
+    their first one (so that `max_combos` enumerates that argument completely)."""
     alts = []
     for (loc, ty) in fn.args[1:]:
-        alts.append(synth(engine, ty, "arg" + loc))
+        a = synth(engine, ty, "arg" + loc)
+        if vary is not None and not ty.strip().endswith(vary):
+            a = a[-1:] if a and isinstance(a[0], sym.Adt) and a[0].ty == "Option" and len(a) > 1 else a[:1]
+        alts.append(a)
     combos = list(itertools.islice(itertools.product(*alts), 0, 64))
     # keep combos diverse but bounded: first, last, and evenly spaced ones
     if len(combos) > max_combos:
